@@ -3,17 +3,27 @@ Correspondence driver: one request line in, one response line out, flushing afte
 The first token of each line selects the sub-protocol.
 -/
 import Dos.StoreDriver
+import Dos.StreamDriver
+import Dos.MergeDriver
 
 open Dos
 
 structure All where
   store : StoreDriver.DState := {}
+  stream : StreamDriver.DState := {}
 
 def stepAll (a : All) (line : String) : All × String :=
   let l := line.trimAscii.toString
-  if l.startsWith "store " then
+  if l.startsWith "store acts " || l.startsWith "store image " || l.startsWith "store safety " then
+    let (d, out) := StoreDriver.levelC a.store (((l.drop 6).toString.splitOn " ").filter (· != ""))
+    ({ a with store := d }, out)
+  else if l.startsWith "store " then
     let (d, out) := StoreDriver.stepLine a.store (l.drop 6).toString
     ({ a with store := d }, out)
+  else if l.startsWith "stream " then
+    let (d, out) := StreamDriver.stepLine a.stream (l.drop 7).toString
+    ({ a with stream := d }, out)
+  else if l.startsWith "merge " then (a, MergeDriver.stepLine (l.drop 6).toString)
   else if l == "reset" then ({}, "ok")
   else (a, "bad-op unknown-protocol")
 
